@@ -1526,8 +1526,8 @@ def module_fingerprints(tree, modname, is_pkg=False, known_modules=(), inlinable
             residue.append(("cbody", prefix + c.name, scope_fp(cstmts)))
         for m in c.body:
             if isinstance(m, (ast.FunctionDef, ast.AsyncFunctionDef)):
-                setter = any(ast.unparse(d).endswith((".setter", ".deleter")) for d in m.decorator_list)
-                add(f"{prefix}{c.name}.{m.name}" + (":setter" if setter else ""), m, c.name if not prefix else None)
+                suffix = "".join(":" + ast.unparse(d).rsplit(".", 1)[1] for d in m.decorator_list if ast.unparse(d).endswith((".setter", ".deleter", ".getter")))
+                add(f"{prefix}{c.name}.{m.name}{suffix}", m, c.name if not prefix else None)
             elif isinstance(m, ast.ClassDef):
                 klass(m, prefix + c.name + ".")
             elif is_doc(m) or isinstance(m, ast.Pass):
